@@ -70,6 +70,10 @@ def unquote_marks(ref_out, impl_out):
     return ref_out
 
 
+def label_sig(label):
+    return "c13" if label.startswith("sel") else "c04"
+
+
 def run_cases(run, cases, label, use_oracle=True):
     res = lib.run_impl("expandlib", [{k: c[k] for k in ("lib", "page", "opts", "title")} for c in cases],
                        shards=lib.NCPU)
@@ -94,22 +98,47 @@ def run_cases(run, cases, label, use_oracle=True):
                             (not c["lib_ast"][j][1] or c["lib_ast"][j][1][0] != 10) else expected_body_ast(c, j), p]
                            for j, (n, _, p) in enumerate(c["lib_ast"])]
             lib_for_ref = [[n, (case_body if True else None), p] for (n, case_body, p) in lib_for_ref]
-            ref = G.Ref(lib_for_ref, kludge=False)
+            ref = G.Ref(lib_for_ref, kludge=False, opts=c["opts"])
             want = unquote_marks(ref.ev(c["page_ast"], None), r["out"])
+            if not ref.unsupported and (c["opts"].get("tfn") or c["opts"].get("pfn")) and want == r["out"]:
+                norm = lambda calls: [[x[0], x[1], sorted(([str(k), v] for k, v in x[2]))] + x[3:] for x in calls]
+                uq = lambda v: unquote_marks(v, "") if isinstance(v, str) else v
+                ref.log = [[x[0], x[1], [[k, uq(v)] for k, v in x[2]]] + [uq(y) for y in x[3:]] for x in ref.log]
+                known_variant = False
+                if norm(ref.log) != norm(r["calls"]):
+                    for kl, sw in ((True, False), (False, True), (True, True)):
+                        rk = G.Ref(lib_for_ref, kludge=kl, trim_first=False, switch_default_wins=sw, opts=c["opts"])
+                        rk.ev(c["page_ast"], None)
+                        rk.log = [[x[0], x[1], [[k, uq(v)] for k, v in x[2]]] + [uq(y) for y in x[3:]] for x in rk.log]
+                        if norm(rk.log) == norm(r["calls"]):
+                            known_variant = True
+                            break
+                if norm(ref.log) != norm(r["calls"]) and known_variant:
+                    run.histogram["c04-known-kludge-seen"] = run.histogram.get("c04-known-kludge-seen", 0) + 1
+                elif norm(ref.log) != norm(r["calls"]) and any(0x10203D <= ord(ch) <= 0x10FFF0 for ch in json.dumps(r["calls"], ensure_ascii=False)):
+                    run.property_failure("c13:hook-args-contain-placeholder",
+                                         "hook arguments contain an internal placeholder character: %r" % (r["calls"],),
+                                         {k: c[k] for k in ("lib", "page", "opts", "title")})
+                elif norm(ref.log) != norm(r["calls"]):
+                    run.property_failure("c13:hook-calls-differ",
+                                         "hooks were called %r, expected %r" % (r["calls"], ref.log),
+                                         {k: c[k] for k in ("lib", "page", "opts", "title")})
             if not ref.unsupported and want != r["out"]:
                 sig = None
                 for kl, sw, name in ((True, False, "c04:trailing-newline-dropped"),
                                      (False, True, "c04:switch-default-vs-trailing-bare-item"),
                                      (True, True, "c04:trailing-newline-dropped+c04:switch-default-vs-trailing-bare-item")):
-                    r2 = G.Ref(lib_for_ref, kludge=kl, trim_first=False, switch_default_wins=sw)
+                    r2 = G.Ref(lib_for_ref, kludge=kl, trim_first=False, switch_default_wins=sw, opts=c["opts"])
                     if unquote_marks(r2.ev(c["page_ast"], None), r["out"]) == r["out"]:
                         sig = name
                         break
-                if sig:
+                if sig and label.startswith("sel"):
+                    run.histogram["c04-known-kludge-seen"] = run.histogram.get("c04-known-kludge-seen", 0) + 1
+                elif sig:
                     run.property_failure(sig, "output %r, MediaWiki rules give %r" % (r["out"], want),
                                          {k: c[k] for k in ("lib", "page", "opts", "title")})
                 else:
-                    run.property_failure("c04:output-differs", "output %r, reference semantics %r" % (r["out"], want),
+                    run.property_failure(label_sig(label) + ":output-differs", "output %r, reference semantics %r" % (r["out"], want),
                                          {k: c[k] for k in ("lib", "page", "opts", "title")})
         # model correspondence on what the implementation really parsed
         if G.has_unsupported(r["page_ast"]) or any(G.has_unsupported(t[1]) for t in r["lib_ast"]):
